@@ -107,6 +107,11 @@ static void build_cases (int thorough) {
         tcase c = b; c.p1 = P_IMM; c.v1 = v; add_case (c);
         if (two) { c = b; c.p2 = P_IMM; c.v2 = v; add_case (c); }
       }
+      /* one operand in memory, the other an immediate (the generator folds the load into the instruction: reg-mem-imm patterns) */
+      if (two && o->src == 'i') for (int v = 0; v < n1; v++) for (int mt = 0; mt < 9; mt += 5) {
+        tcase c = b; c.mtype = mt; c.p1 = P_MEM; c.p2 = P_IMM; c.v2 = v; add_case (c);
+        c = b; c.mtype = mt; c.p2 = P_MEM; c.p1 = P_IMM; c.v1 = v; add_case (c);
+      }
       /* both operands constant: directly and through moves (folded by GVN/CCP at -O2/-O3) */
       if (two) { for (int v = 0; v < n1; v++) for (int w = 0; w < n1; w++) { tcase c = b; c.fold = 1; c.v1 = v; c.v2 = w; add_case (c); c.fold = 0; c.p1 = c.p2 = P_IMM; add_case (c); } }
       else for (int v = 0; v < n1; v++) { tcase c = b; c.fold = 1; c.v1 = v; add_case (c); }
